@@ -27,6 +27,7 @@ KERNEL_TB = [
     "extraction: ExtrOcamlBasic only (bool, option, unit, list, prod, sumbool, sumor; andb, orb inlined); numbers stay Coq inductives",
     "extract/driver_body.ml (generic line-based OCaml driver) and OCaml 4.13.1 compiler",
     "correspondence harness, generators and canonicalisation in /verif/corr and /verif/checks",
+    "tx/tx_memo.py (memoisation sites of the anchored source files, re-extracted each run and compared with tx/memo_known.json)",
 ]
 
 
@@ -285,8 +286,34 @@ class Check:
                 concrete=False,
             )
 
+    # -- tie: the memoisation sites of the anchored source files are the ones the models were written against
+    def memo_tie(self):
+        """tx/tx_memo.py re-extracts every memoising decorator of the source tree; a site that is new in a file this
+        property is anchored in is a cache the model does not have (fail-closed translator).  Reported as a broken
+        tie only when the run's own search produced no failing input."""
+        try:
+            sys.path.insert(0, os.path.join(VERIF, "tx"))
+            import tx_memo
+            cur, new = tx_memo.new_sites_for(self.pid, REPO)
+        except Exception as e:  # noqa
+            self.notes.append("memoisation-site translator failed: %r" % e)
+            return None
+        finally:
+            if sys.path and sys.path[0] == os.path.join(VERIF, "tx"):
+                sys.path.pop(0)
+        if new and not any(v["concrete"] for v in self.violations):
+            for site in new[:5]:
+                self.violation(
+                    "unmodelled-memoisation:" + site,
+                    "the source now memoises %s, a cache the model of %s was not written against (tx/memo_known.json); the theorems say "
+                    "nothing about a tree that caches more than the model, and this run's histories found no failing input" % (site, self.pid),
+                    {"theorem_or_correspondence": "tie tx_memo: memoisation sites of the files %s is anchored in = tx/memo_known.json" % self.pid,
+                     "construct": site}, concrete=False)
+        return {"memoisation_sites_in_anchor_files": len(cur), "memoisation_sites_new": new}
+
     # -- finish
     def finish(self, rule: str, trusted_base, assumptions, extra=None) -> int:
+        memo = self.memo_tie()
         b = self.build
         cov = {
             "obligations": b.obligations if b else 0,
@@ -306,6 +333,8 @@ class Check:
         }
         if extra:
             cov.update(extra)
+        if memo:
+            cov.update(memo)
         ev = {
             "property_id": self.pid,
             "tier": self.tier,
